@@ -1,9 +1,10 @@
 #!/usr/bin/env python3
-"""keep_seed.py <PROP> <mN> <caught_by> <check output summary> — copy a confirmed seeded change into /verif/seeded/"""
+"""keep_seed.py <PROP> <mN> <caught_by> <check output summary> [<dest mN>] — copy a confirmed seeded change into /verif/seeded/"""
 import json, sys, shutil, os, glob
 prop, m, caught, summary = sys.argv[1], sys.argv[2], sys.argv[3], sys.argv[4]
+dest = sys.argv[5] if len(sys.argv) > 5 else m
 src = f"/tmp/seed-{prop}/{m}"
-sid = f"{prop}-{m}"
+sid = f"{prop}-{dest}"
 dst = f"/verif/seeded/{sid}"
 os.makedirs(dst, exist_ok=True)
 shutil.copy(f"{src}/patch.diff", f"{dst}/patch.diff")
@@ -12,7 +13,7 @@ for f in glob.glob(f"{src}/*.rs"):
 meta = json.load(open(f"{src}/meta.json"))
 meta["id"] = sid
 meta["confirmed_by_me"] = open(f"{src}/confirm.log").read().strip().splitlines()
-meta["what_i_ran"] = f"tools/confirm_seed.sh {prop} {src} /tmp/wt-{prop} (demo fails with / passes without the patch; existing suite of the touched crates unchanged); tools/try_seed.sh {caught.split(',')[0]} {dst}/patch.diff"
+meta["what_i_ran"] = f"tools/confirm_any.sh {prop} {src} <scratch worktree> (demo fails with / passes without the patch; existing suite of the touched crates unchanged); tools/try_seed.sh {caught.split(',')[0]} {dst}/patch.diff"
 meta["caught_by"] = caught.split(",")
 meta["check_result"] = summary
 json.dump(meta, open(f"{dst}/meta.json", "w"), indent=1)
